@@ -540,7 +540,10 @@ def _enclosing_stmt(fi: FuncInfo, node: ast.AST):
 
 
 def _sorted_use(fi: FuncInfo, stmt, call) -> bool:
-    # directly wrapped: sorted(<glob>)
+    # wrapped anywhere up the expression (also in a `for ... in sorted(<glob>)` header): sorted(<glob>)
+    for x in ast.walk(fi.node):
+        if isinstance(x, ast.Call) and unparse(x.func) == "sorted" and any(y is call for a in x.args for y in ast.walk(a)):
+            return True
     for x in ast.walk(stmt) if stmt is not None else []:
         if isinstance(x, ast.Call) and unparse(x.func) == "sorted" and any(y is call for a in x.args for y in ast.walk(a)):
             return True
